@@ -142,6 +142,15 @@ func (r *Runner) obs(afterFail, light bool) {
 				}
 			}
 		}
+		for _, q := range r.xqs {
+			qs = append(qs, r.oneQuery(q))
+		}
+		e["q"] = qs
+	} else if len(r.xqs) > 0 {
+		qs := [][]interface{}{}
+		for _, q := range r.xqs {
+			qs = append(qs, r.oneQuery(q))
+		}
 		e["q"] = qs
 	}
 	e["control"] = classify(r.db.Control())
